@@ -9,9 +9,12 @@ use serde_json::{Value, json};
 use std::panic::{AssertUnwindSafe, catch_unwind};
 use std::path::Path;
 
-pub const ALPHABET: [&str; 26] = [
-    "a", "7", "_", " ", "\n", "\"", "\\", "/", ".", ":", "=", "|", "&", "-", ">", "(", "{", "[", ",", ";", "#", "é", "😀", "f", "3", "\0",
+pub const ALPHABET: [&str; 30] = [
+    "a", "7", "_", " ", "\n", "\"", "\\", "/", ".", ":", "=", "|", "&", "-", ">", "(", "{", "[", ",", ";", "#", "é", "😀", "f", "3", "\0", "\u{feff}", "\r", "\t", "\u{2028}",
 ];
+
+/// characters editors and tools put into files without the user typing them
+const INSERTED: [&str; 6] = ["\u{feff}", "\r", "\u{a0}", "\u{2028}", "\0", "\u{200b}"];
 
 fn kinds(t: &str) -> String {
     lexer::lex(t).iter().map(|k| format!("{:?}", k.kind)).collect::<Vec<_>>().join(",")
@@ -153,7 +156,7 @@ pub struct SeqFamily {
 pub fn strings() -> SeqFamily {
     SeqFamily {
         name: "strings",
-        rule: "all strings over a 26-symbol alphabet (one or two representatives of every token class, multi-byte letters, quote, backslash, newline, NUL) up to length 4 (quick) / 5 (thorough), each lexed, parsed twice and compiled; one case = all strings starting with one symbol; non-trivial/distinct = distinct token-kind sequences",
+        rule: "all strings over a 30-symbol alphabet (one or two representatives of every token class, multi-byte letters, quote, backslash, newline, NUL, byte order mark, carriage return, tab, U+2028) up to length 4 (quick) / 5 (thorough), each lexed, parsed twice and compiled; one case = all strings starting with one symbol; non-trivial/distinct = distinct token-kind sequences",
         alphabet: &ALPHABET,
         sep: "",
         max_q: 4,
@@ -348,7 +351,7 @@ impl Family for CorpusMut {
         &["C12", "C04"]
     }
     fn rule(&self) -> &'static str {
-        "every prefix (at every char boundary) and every single-character deletion of the corpus sources and the builtin prelude (quick: every 5th position), lexed, parsed twice, compiled; one case = one source file × mode; distinct = distinct mutated texts that still lex differently from the original"
+        "every prefix (at every char boundary), every single-character deletion (quick: every 5th position) and every insertion of one of 6 characters that tools put into files (byte order mark, carriage return, no-break space, U+2028, NUL, zero-width space; at the start, at the end and at every 5th / 25th boundary) of the corpus sources and the builtin prelude, lexed, parsed twice, compiled; one case = one source file × mode; distinct = distinct mutated texts that still lex differently from the original"
     }
     fn cases(&self, _tier: Tier) -> Box<dyn Iterator<Item = Value> + '_> {
         let srcs = corpus_sources();
@@ -360,6 +363,7 @@ impl Family for CorpusMut {
                 let hi = (lo + 250).min(nb);
                 v.push(json!({"file": i, "mode": "prefix", "lo": lo, "hi": hi}));
                 v.push(json!({"file": i, "mode": "delete", "lo": lo, "hi": hi}));
+                v.push(json!({"file": i, "mode": "insert", "lo": lo, "hi": hi}));
                 lo = hi;
             }
         }
@@ -385,12 +389,20 @@ impl Family for CorpusMut {
         let mut reported: std::collections::BTreeMap<String, u32> = std::collections::BTreeMap::new();
         let mut stage_counts: std::collections::BTreeMap<String, u64> = std::collections::BTreeMap::new();
         let (lo, hi) = (case["lo"].as_u64().unwrap() as usize, case["hi"].as_u64().unwrap() as usize);
+        // insertions: one special character at the start, the end and every 5th (quick: 25th) of the other
+        // boundaries
+        let variants: Vec<&str> = if mode == "insert" { INSERTED.to_vec() } else { vec![""] };
         for (bi, &b) in bounds.iter().enumerate() {
-            if bi < lo || bi >= hi || bi % stride != 0 {
+          for ins in &variants {
+            let edge = mode == "insert" && (b == 0 || b == src.len());
+            let step = if mode == "insert" { stride * 5 } else { stride };
+            if bi < lo || bi >= hi || (bi % step != 0 && !edge) {
                 continue;
             }
             let t: String = if mode == "prefix" {
                 src[..b].to_string()
+            } else if mode == "insert" {
+                format!("{}{}{}", &src[..b], ins, &src[b..])
             } else {
                 if b >= src.len() {
                     continue;
@@ -430,6 +442,7 @@ impl Family for CorpusMut {
                     });
                 }
             }
+          }
         }
         for (k, v) in stage_counts {
             rep.tag(format!("stage:{}x{}", k, v));
